@@ -8,5 +8,5 @@ import "github.com/cenkalti/backoff/v4"
 func VerifSetBackoffClock(p *ReconnectClient, c backoff.Clock) {
 	p.backoff.Clock = c
 	p.backoff.RandomizationFactor = 0 // the library draws from the global PRNG: not a source of nondeterminism the explorer owns
-	p.backoff.Reset() // the policy's start time was taken from the wall clock at construction
+	p.backoff.Reset()                 // the policy's start time was taken from the wall clock at construction
 }
